@@ -23,7 +23,7 @@ const (
 )
 
 var Kinds = []string{Truncate, DropChunk, DupChunk, SwapChunk, ZeroChunk, BitFlip, StaleTail, Splice, Loss,
-	FieldTruncate, FieldLost, FieldMisdirect, FieldSwap}
+	FieldTruncate, FieldLost, FieldMisdirect, FieldSwap, FieldFill}
 
 var ChunkSizes = []int{1, 4, 16, 64, 512}
 
@@ -53,6 +53,8 @@ func (f Fault) String() string {
 		return fmt.Sprintf("%s(value#%d,%s)", f.Kind, f.A, []string{"null", "absent"}[f.B%2])
 	case FieldMisdirect, FieldSwap:
 		return fmt.Sprintf("%s(value#%d,value#%d)", f.Kind, f.A, f.B)
+	case FieldFill:
+		return fmt.Sprintf("%s(text %d,0x%02X)", f.Kind, f.A, FillPatterns[f.B%len(FillPatterns)])
 	}
 	return fmt.Sprintf("%s(chunk=%d,#%d)", f.Kind, f.Chunk, f.A)
 }
@@ -62,7 +64,7 @@ func (f Fault) String() string {
 // disk (the previous contents of the sector, a neighbouring blob).
 func Apply(msg []byte, f Fault, other []byte) []byte {
 	switch f.Kind {
-	case FieldTruncate, FieldLost, FieldMisdirect, FieldSwap:
+	case FieldTruncate, FieldLost, FieldMisdirect, FieldSwap, FieldFill:
 		return applyField(msg, f)
 	}
 	out := append([]byte(nil), msg...)
@@ -172,7 +174,7 @@ func DrawProgram(t *core.Tape, msgLen int, max int, enabled []string) []Fault {
 				f.B = t.Draw(span)
 			}
 			f.Chunk = 0
-		case FieldLost, FieldMisdirect, FieldSwap:
+		case FieldLost, FieldMisdirect, FieldSwap, FieldFill:
 			f.A = t.Draw(span)
 			f.B = t.Draw(span)
 			f.Chunk = 0
